@@ -54,7 +54,7 @@ func locRootSuffix(c *Ctx, a *flAgg) {
 		return
 	}
 	l := loops[0]
-	seg := &SPE{Fn: fn, Start: l.Header, MaxVisits: 2}
+	seg := &SPE{Fn: fn, Start: l.Header, MaxVisits: 2, SeedEnv: seedStraight(fn, l.Header)}
 	seg.Stop = func(from, to *ssa.BasicBlock) bool { return (to == l.Header && l.Body[from]) || (l.Body[from] && !l.Body[to]) }
 	seg.Explore()
 	type verdict struct {
@@ -242,11 +242,22 @@ func locOrder(c *Ctx, a *flAgg) {
 				}
 			}
 		}
+		// the two stores exchange the elements at the two cursors: each
+		// writes, at its own index, the element loaded from the other's
+		type swapSt struct{ at, from string }
+		var sts []swapSt
 		for b := range l.Body {
 			for _, in := range b.Instrs {
 				if st, ok := in.(*ssa.Store); ok {
 					if ia, isIdx := st.Addr.(*ssa.IndexAddr); isIdx {
 						swaps++
+						from := "?"
+						if ld, ok := st.Val.(*ssa.UnOp); ok && ld.Op == token.MUL {
+							if ia2, ok := ld.X.(*ssa.IndexAddr); ok && ia2.X == ia.X {
+								from = ssaIdxKey(ia2.Index, 0)
+							}
+						}
+						sts = append(sts, swapSt{ssaIdxKey(ia.Index, 0), from})
 						// the mirror index written as (invariant) - i instead of a second cursor
 						if bo, ok := ia.Index.(*ssa.BinOp); ok && bo.Op == token.SUB {
 							if ph, ok := bo.Y.(*ssa.Phi); ok && ph.Block() == l.Header {
@@ -271,7 +282,11 @@ func locOrder(c *Ctx, a *flAgg) {
 			}
 		}
 		if up && down && swaps == 2 {
-			reversed = true
+			if len(sts) == 2 && sts[0].at != sts[1].at && sts[0].from == sts[1].at && sts[1].from == sts[0].at {
+				reversed = true
+			} else if len(sts) == 2 {
+				other = fmt.Sprintf("the reversal does not exchange the elements at its two cursors (x[%s] = x[%s]; x[%s] = x[%s])", sts[0].at, sts[0].from, sts[1].at, sts[1].from)
+			}
 		}
 	}
 	// the list that is sorted holds the keys and nothing else: it starts empty
@@ -423,11 +438,12 @@ func locSkip(c *Ctx, a *flAgg) {
 		return
 	}
 	l := loops[0]
-	seg := &SPE{Fn: fn, Start: l.Header, MaxVisits: 2}
+	seg := &SPE{Fn: fn, Start: l.Header, MaxVisits: 2, SeedEnv: seedStraight(fn, l.Header)}
 	seg.Stop = func(from, to *ssa.BasicBlock) bool { return (to == l.Header && l.Body[from]) || (l.Body[from] && !l.Body[to]) }
 	seg.Explore()
 	n, okAll := 0, true
 	why := ""
+	wrongTable := ""
 	for _, p := range seg.Paths {
 		if !(p.Term == "stop" && p.End == l.Header) {
 			continue
@@ -438,6 +454,14 @@ func locSkip(c *Ctx, a *flAgg) {
 		for _, ev := range p.Events {
 			if (ev.Kind == EvMapUpd && strings.Contains(ev.Addr.String(), "RemoteGOPATHs")) || (ev.Kind == EvStore && strings.HasSuffix(ev.Addr.String(), ".RemoteGOROOT")) {
 				hit = true
+			}
+			// a detected remote GOROOT is kept: the frames seen so far were
+			// explained by it
+			if ev.Kind == EvStore && strings.HasSuffix(ev.Addr.String(), ".RemoteGOROOT") {
+				if empty, have := p.lit("(" + fn.Params[0].Name() + ".RemoteGOROOT == \"\")"); !have || !empty {
+					okAll = false
+					why = "the remote GOROOT is probed for and overwritten although one was already detected: the root recorded is no longer a prefix of the frames attributed to it"
+				}
 			}
 			if ev.Kind != EvCall || ev.Val.Op != OpCall || ev.Val.Fn == nil {
 				continue
@@ -460,20 +484,45 @@ func locSkip(c *Ctx, a *flAgg) {
 				continue
 			}
 			at := lt.Atom
-			if at.calleeIs(stackPkg, "hasSrcPrefix") || at.calleeIs(stackPkg, "hasPrefix") {
-				explained = true
+			// explained by a remote GOPATH (src or pkg/mod below it) or by
+			// a local module: each helper with its own table
+			if at.calleeIs(stackPkg, "hasSrcPrefix") && len(at.Args) == 3 {
+				if strings.HasSuffix(at.Args[2].String(), ".RemoteGOPATHs") {
+					explained = true
+				} else {
+					wrongTable = "hasSrcPrefix is applied to " + at.Args[2].String() + ", not to the remote GOPATHs"
+				}
+			}
+			if at.calleeIs(stackPkg, "hasPrefix") && len(at.Args) == 3 {
+				if strings.HasSuffix(at.Args[2].String(), ".LocalGomods") {
+					explained = true
+				} else {
+					wrongTable = "hasPrefix is applied to " + at.Args[2].String() + ", not to the local modules"
+				}
 			}
 			if at.calleeIs("strings", "HasPrefix") && strings.Contains(at.String(), "RemoteGOROOT") {
 				// ... under a remote GOROOT that was detected (not the empty string)
 				if empty, have := p.lit("(" + fn.Params[0].Name() + ".RemoteGOROOT == \"\")"); have && !empty {
 					explained = true
 				}
+				// ... at a path-component boundary: GOROOT + "/src/"
+				if len(at.Args) == 3 {
+					if k, isC := trailConst(at.Args[2]); isC && !strings.HasSuffix(k, "/") {
+						wrongTable = fmt.Sprintf("the standard-library test compares with GOROOT + %q, which also matches a sibling directory whose name begins the same way", k)
+					}
+				}
 			}
 		}
 		if !explained {
 			okAll = false
 			why = litsString(p)
+			if wrongTable != "" {
+				why = wrongTable
+			}
 		}
+	}
+	if okAll && wrongTable != "" {
+		okAll, why = false, wrongTable
 	}
 	switch {
 	case n == 0:
@@ -757,6 +806,7 @@ func locSeparators(c *Ctx, a *flAgg) {
 		nTrue := 0
 		okAll := true
 		why := ""
+		valRoot, otherRoot := false, ""
 		for _, p := range x.Paths {
 			if p.Term != "return" || len(p.Results) != 1 {
 				continue
@@ -766,12 +816,26 @@ func locSeparators(c *Ctx, a *flAgg) {
 			}
 			nTrue++
 			rootEq, sepOK := false, false
+			// the roots are the keys of the map (remote root -> local
+			// root); its values are local directories, which a remote path
+			// never begins with
+			isKey := func(e *Expr) bool {
+				return e.Op == OpExtract && e.ID == 1 && e.Args[0].Op == OpNext
+			}
+			isVal := func(e *Expr) bool {
+				return e.Op == OpExtract && e.ID == 2 && e.Args[0].Op == OpNext || e.Op == OpLookup
+			}
 			for _, lt := range p.Lits {
 				// the same two tests written with strings.HasPrefix
 				if at := lt.Atom; lt.Pol && at.calleeIs("strings", "HasPrefix") && len(at.Args) == 3 {
 					subj, pre := at.Args[1], at.Args[2]
 					if subj.Op == OpParam && !pre.isConst() {
 						rootEq = true // p begins with the root
+						if isVal(pre) {
+							valRoot = true
+						} else if !isKey(pre) {
+							otherRoot = pre.String()
+						}
 					}
 					if s, ok := constStr(pre); ok && strings.HasPrefix(s, "/") && subj.Op == OpSlice && subj.Args[0].Op == OpParam && subj.Args[1] != nil && strings.HasPrefix(subj.Args[1].String(), "len(") {
 						sepOK = true // what follows the root begins with a separator
@@ -786,6 +850,11 @@ func locSeparators(c *Ctx, a *flAgg) {
 					// p[:len(prefix)] == prefix
 					if x.Op == OpSlice && x.Args[0].Op == OpParam && x.Args[1] == nil && x.Args[2] != nil && strings.HasPrefix(x.Args[2].String(), "len(") && "len("+y.String()+")" == x.Args[2].String() {
 						rootEq = true
+						if isVal(y) {
+							valRoot = true
+						} else if !isKey(y) {
+							otherRoot = y.String()
+						}
 					}
 					// p[len(prefix)] == '/'
 					if k, ok := y.intConst(); ok && k == '/' && (x.Op == OpIndex || x.Op == OpLookup) {
@@ -796,6 +865,13 @@ func locSeparators(c *Ctx, a *flAgg) {
 					// p[l:l+len(sep)] == "/src/"
 					if s, ok := constStr(y); ok && strings.HasPrefix(s, "/") && strings.HasSuffix(s, "/") && x.Op == OpSlice && x.Args[1] != nil && strings.HasPrefix(x.Args[1].String(), "len(") {
 						sepOK = true
+						// the slice compared with the directory name has its length
+						if hi := x.Args[2]; hi != nil {
+							if k, isC := constOffset(hi, x.Args[1].String()); isC && k != int64(len(s)) {
+								sepOK = false
+								why = fmt.Sprintf("%d bytes behind the root are compared with the %d bytes of %q, which is never equal", k, len(s), s)
+							}
+						}
 					}
 				}
 			}
@@ -803,6 +879,13 @@ func locSeparators(c *Ctx, a *flAgg) {
 				okAll = false
 				why = fmt.Sprintf("a match is reported with root-equality=%v, separator-after-root=%v on %s", rootEq, sepOK, litsString(p))
 			}
+		}
+		if nTrue > 0 && valRoot {
+			a.bad("LOC-sep", name+"/key", "the path is compared with the values of the root map (the local directories), not with its keys (the remote roots the dump's paths begin with): a file under a known remote root is not recognised as explained, and one that happens to lie under a local directory is", fn.Pos())
+		} else if nTrue > 0 && otherRoot != "" {
+			a.und("LOC-sep", name+"/key", "the root the path is compared with is not a key of the root map: "+otherRoot, fn.Pos())
+		} else if nTrue > 0 {
+			a.ok("LOC-sep", name+"/key", "the roots compared are the keys of the map (remote roots)", fn.Pos())
 		}
 		if nTrue == 0 {
 			a.und("LOC-sep", name, "no path returns true", fn.Pos())
@@ -823,6 +906,40 @@ func locSearchBounds(c *Ctx, a *flAgg) {
 			a.ok("LOC-search", "isGoModule/bounds", "the go.mod search walks from the file's directory up to and including the first path component", fn.Pos())
 		} else {
 			a.bad("LOC-search", "isGoModule/bounds", "the upward go.mod search does not cover i = len(parts) .. 1: "+why+" (a module rooted at the first path component is not found)", fn.Pos())
+		}
+	}
+	if fn := c.L.Func("stack", "gomodCache", "isGoModule"); fn != nil && len(fn.Params) > 1 {
+		// what a hit returns: (directory holding go.mod, module path read
+		// from it) - both are strings, so the swapped pair compiles
+		exprHome = fn.Pkg.Pkg
+		x := &SPE{Fn: fn, MaxVisits: 2}
+		x.Explore()
+		parts := fn.Params[1].Name()
+		nHit, bad := 0, ""
+		for _, p := range x.Paths {
+			if p.Term != "return" || len(p.Results) != 2 {
+				continue
+			}
+			if _, isC := constStr(p.Results[0]); isC {
+				if _, isC2 := constStr(p.Results[1]); isC2 {
+					continue
+				}
+			}
+			nHit++
+			d, m := p.Results[0].String(), p.Results[1].String()
+			if !strings.Contains(d, parts+"[") || strings.Contains(d, "FindSubmatch") || strings.Contains(d, "ReadFile") {
+				bad = "the first result of a hit is " + d + ", not the directory joined from the path components"
+			} else if !strings.Contains(m, "FindSubmatch(") || !strings.HasSuffix(m, "[1])") {
+				bad = "the second result of a hit is " + m + ", not the module path captured from go.mod"
+			}
+		}
+		switch {
+		case nHit == 0:
+			a.und("LOC-search", "isGoModule/results", "no path of isGoModule reports a module", fn.Pos())
+		case bad != "":
+			a.bad("LOC-search", "isGoModule/results", bad+": local modules are recorded with directory and import path exchanged, so no frame is attributed to its module", fn.Pos())
+		default:
+			a.ok("LOC-search", "isGoModule/results", "a hit returns (directory that holds go.mod, module path captured from it)", fn.Pos())
 		}
 	}
 	if fn := c.MustFunc(a.obls, "LOC-search", "stack", "", "isRootedIn"); fn != nil {
@@ -919,6 +1036,7 @@ func locTestMain(c *Ctx, a *flAgg) {
 	x.Explore()
 	recv := fn.Params[0].Name()
 	ok, n := true, 0
+	wrong := ""
 	for _, p := range x.Paths {
 		is, have := false, false
 		for _, lt := range p.Lits {
@@ -927,6 +1045,18 @@ func locTestMain(c *Ctx, a *flAgg) {
 				if lt.Atom.Op == OpBin && lt.Atom.Tok == token.EQL {
 					if k, okk := constStr(lt.Atom.Args[1]); okk && strings.HasSuffix(k, "_testmain.go") {
 						is, have = lt.Pol, true
+						// the last two path elements are compared with
+						// "_test/_testmain.go"
+						want := recv + ".DirSrc"
+						if d := p.Cells["&"+recv+".DirSrc"]; d != nil {
+							want = d.String()
+						}
+						if lt.Atom.Args[0].String() != want {
+							wrong = "the value compared with the generated main's name is " + lt.Atom.Args[0].String() + ", not the frame's DirSrc (directory/file)"
+						}
+						if k != "_test/_testmain.go" && k != "_test\\_testmain.go" {
+							wrong = fmt.Sprintf("the name of the generated main is %q, go test writes _test/_testmain.go", k)
+						}
 					}
 				}
 			}
@@ -941,7 +1071,9 @@ func locTestMain(c *Ctx, a *flAgg) {
 			ok = false
 		}
 	}
-	if ok && n > 0 {
+	if ok && n > 0 && wrong != "" {
+		a.bad("LOC-testmain", "Call.init", wrong+": the generated test main is never recognised", fn.Pos())
+	} else if ok && n > 0 {
 		a.ok("LOC-testmain", "Call.init", "_test/_testmain.go is classified as standard library, and nothing else is classified at parse time", fn.Pos())
 	} else {
 		a.bad("LOC-testmain", "Call.init", "the generated test main is not (only) classified as Stdlib at parse time", fn.Pos())
@@ -1179,4 +1311,60 @@ func locAllRoots(a *flAgg, fn *ssa.Function) {
 	if n == 0 {
 		a.ok("LOC-branch", "updateLocations/all-roots", "no loop over the roots is left early", fn.Pos())
 	}
+}
+
+// ssaIdxKey: a structural name for an index value (no CSE in go/ssa: the same
+// expression written twice is two instructions).
+func ssaIdxKey(v ssa.Value, depth int) string {
+	if depth > 4 {
+		return v.Name()
+	}
+	switch t := v.(type) {
+	case *ssa.Const:
+		return t.Value.String()
+	case *ssa.BinOp:
+		return "(" + ssaIdxKey(t.X, depth+1) + t.Op.String() + ssaIdxKey(t.Y, depth+1) + ")"
+	case *ssa.Call:
+		if b, ok := t.Call.Value.(*ssa.Builtin); ok && len(t.Call.Args) == 1 {
+			return b.Name() + "(" + ssaIdxKey(t.Call.Args[0], depth+1) + ")"
+		}
+	}
+	return v.Name()
+}
+
+// constOffset: e == base + k for a constant k (through nested +/- constants).
+func constOffset(e *Expr, base string) (int64, bool) {
+	if e == nil {
+		return 0, false
+	}
+	if e.String() == base {
+		return 0, true
+	}
+	if e.Op == OpBin && len(e.Args) == 2 && (e.Tok == token.ADD || e.Tok == token.SUB) {
+		if k, isC := e.Args[1].intConst(); isC {
+			if in, ok := constOffset(e.Args[0], base); ok {
+				if e.Tok == token.SUB {
+					return in - k, true
+				}
+				return in + k, true
+			}
+		}
+		if k, isC := e.Args[0].intConst(); isC && e.Tok == token.ADD {
+			if in, ok := constOffset(e.Args[1], base); ok {
+				return in + k, true
+			}
+		}
+	}
+	return 0, false
+}
+
+// trailConst: the constant string a concatenation ends with.
+func trailConst(e *Expr) (string, bool) {
+	if k, ok := constStr(e); ok {
+		return k, true
+	}
+	if e.Op == OpBin && e.Tok == token.ADD && len(e.Args) == 2 {
+		return trailConst(e.Args[1])
+	}
+	return "", false
 }
